@@ -222,6 +222,79 @@ theorem defaults_mandatory (c : Cfg) (hc : c.WF = true) :
   obtain ⟨_, _, _, _, _, _, _, _, _, _, _, _, h1, h2, h3, h4, _⟩ := dwf_parts c hc
   exact ⟨fun _ _ => h1, fun _ => h2, fun _ _ _ => h3, fun _ _ _ => h3, fun _ => h4⟩
 
+/-! ## only built-in requirements are generated -/
+
+theorem visLoop_no_user (c : Cfg) (mk : Nat → Nat → List Nat → ReqKind) (hmk : ∀ s t o u, mk s t o ≠ .user u)
+    (sel : Inst → Option Nat) (insts : List Inst) :
+    ∀ (ts : List Nat) (it : Iter) (u : Nat), ReqKind.user u ∉ (visLoop c mk sel insts ts it).1
+  | [], it, u => by simp [visLoop]
+  | t :: ts, it, u => by
+    unfold visLoop
+    cases sel (instAt insts t) with
+    | none => exact visLoop_no_user c mk hmk sel insts ts it u
+    | some s =>
+      simp only
+      intro hmem
+      rcases List.mem_cons.mp hmem with h | h
+      · exact hmk _ _ _ _ h.symm
+      · exact visLoop_no_user c mk hmk sel insts ts _ u h
+
+/-- `generateDefaultRequirements` only creates built-in requirements -/
+theorem generate_no_user (c : Cfg) (insts : List Inst) (objects : List Nat) (ego : Option Nat)
+    (rs : List ReqKind) (h : generate c insts objects ego = some rs) (u : Nat) : ReqKind.user u ∉ rs := by
+  unfold generate at h
+  simp only at h
+  have hV : ReqKind.user u ∉ (if c.hasObserving = true then
+      visLoop c ReqKind.visibility (fun x => x.observing) insts (List.range insts.length)
+        { kind := c.occludersKind, items := List.filter (fun o => mayOcclude c (instAt insts o)) objects }
+      else ([], { kind := c.occludersKind, items := List.filter (fun o => mayOcclude c (instAt insts o)) objects })).fst := by
+    split
+    · exact visLoop_no_user c _ (by intro s t o u h; cases h) _ insts _ _ u
+    · simp
+  generalize (if c.hasObserving = true then
+      visLoop c ReqKind.visibility (fun x => x.observing) insts (List.range insts.length)
+        { kind := c.occludersKind, items := List.filter (fun o => mayOcclude c (instAt insts o)) objects }
+      else ([], { kind := c.occludersKind, items := List.filter (fun o => mayOcclude c (instAt insts o)) objects })) = V at h hV
+  have hN : ReqKind.user u ∉ (if c.hasNonObserving = true then
+      visLoop c ReqKind.nonVisibility (fun x => x.nonObserving) insts (List.range insts.length) V.snd
+      else ([], V.snd)).fst := by
+    split
+    · exact visLoop_no_user c _ (by intro s t o u h; cases h) _ insts _ _ u
+    · simp
+  generalize (if c.hasNonObserving = true then
+      visLoop c ReqKind.nonVisibility (fun x => x.nonObserving) insts (List.range insts.length) V.snd
+      else ([], V.snd)) = N at h hN
+  have hB : ReqKind.user u ∉ (if c.initialCollisionCheck = true then [ReqKind.blanket objects] else []) := by
+    split <;> simp
+  have hI : ReqKind.user u ∉ (if c.combinationsOfTwo = true then
+      List.map (fun p => ReqKind.intersection p.fst p.snd)
+        (pairs (List.filter (fun o => collidable c (instAt insts o)) objects)) else []) := by
+    split <;> simp
+  have hC : ReqKind.user u ∉ List.map ReqKind.containment
+      (List.filter (fun o => c.containUnlessAll && !(instAt insts o).containerAll) objects) := by simp
+  intro hmem
+  split at h
+  · simp at h
+  · simp only [Option.some.injEq] at h
+    subst h
+    simp only [List.mem_append] at hmem
+    rcases hmem with (((h1 | h1) | h1) | h1) | h1
+    · exact hB h1
+    · exact hI h1
+    · exact hC h1
+    · exact hV h1
+    · exact hN h1
+  · simp only [Option.some.injEq] at h
+    subst h
+    simp only [List.mem_append] at hmem
+    rcases hmem with ((((h1 | h1) | h1) | h1) | h1) | h1
+    · exact hB h1
+    · exact hI h1
+    · exact hC h1
+    · exact hV h1
+    · exact hN h1
+    · simp at h1
+
 /-! ## the one-shot iterator (the defect repaired by /repo commit 0f60b192, kept as a regression witness) -/
 
 def exInsts : List Inst := [
